@@ -269,6 +269,13 @@ class Locals:
                     b = payload_binder(a["pat"])
                     if b is not None:
                         self.payload_defs[b["id"]] = x["scrut"]
+                    # a catch-all arm that names the scrutinee (`opt if opt.starts_with(..) => ..`): the binder is the scrutinee
+                    pa = a["pat"]
+                    while pa["k"] == "PRef":
+                        pa = pa["sub"]
+                    if pa["k"] == "Bind" and "sub" not in pa and x.get("src") == "Normal":
+                        self._arm_binders = getattr(self, "_arm_binders", {})
+                        self._arm_binders[pa["id"]] = x["scrut"]
             if x["k"] == "Let" and x["pat"]["k"] == "Bind" and "init" in x and "sub" not in x["pat"]:
                 i = x["pat"]["id"]
                 if i in self.defs:
@@ -280,6 +287,9 @@ class Locals:
                     self.multi.add(l["res"])
         for i in self.multi:
             self.defs.pop(i, None)
+        for i, d in getattr(self, "_arm_binders", {}).items():
+            if i not in self.defs and i not in self.multi:
+                self.defs[i] = d
 
     def chase(self, n, limit=8):
         """replace a single-assignment local by its initialiser, repeatedly"""
